@@ -36,13 +36,22 @@ KeyOf(e) == <<e.c, e.p>>
 ExactlyOnce(seq, S) == Len(seq) = Cardinality(S) /\ Range(seq) = S
 
 (* the destructor calls a step must show when the key objects K and the values V are displaced *)
-Destroys(dks, dvs, K, V) ==
+(* NULL (0) is a value like any other for the container: an entry whose value is NULL is displaced like the rest, and the  *)
+(* value destructor is called for it too, with NULL.  V = the displaced non-NULL value objects (each destroyed exactly     *)
+(* once, ever); the number of displaced NULL values follows from the entries before and after (az = 1 when the step itself   *)
+(* stores a NULL value).                                                                                                  *)
+ZeroCount(s) == Cardinality({i \in 1..Len(s) : s[i].v = 0})
+Destroys5(dks, dvs, K, V0, az) ==
+    LET V == V0 \ {0}
+        zc == ZeroCount(order) + az - ZeroCount(order')
+    IN
     /\ ExactlyOnce(dks, IF dk THEN K ELSE {})
-    /\ ExactlyOnce(dvs, IF dv THEN V ELSE {})
+    /\ IF dv THEN ExactlyOnce(SelectSeq(dvs, LAMBDA x : x # 0), V) /\ Len(dvs) = Cardinality(V) + zc ELSE dvs = <<>>
     /\ (dv => V \cap vdead = {})
     /\ kd' = [i \in DOMAIN kd |-> kd[i] + (IF dk /\ \E k \in K : KIdx(k[1], k[2]) = i THEN 1 ELSE 0)]
-    /\ nvd' = nvd + (IF dv THEN Cardinality(V) ELSE 0)
+    /\ nvd' = nvd + (IF dv THEN Cardinality(V) + zc ELSE 0)
     /\ vdead' = IF dv THEN vdead \cup V ELSE vdead
+Destroys(dks, dvs, K, V0) == Destroys5(dks, dvs, K, V0, 0)
 
 LHInit(k, v) == /\ order = <<>> /\ kd = [i \in 1..(NC * NP) |-> 0] /\ nvd = 0 /\ vdead = {}
                 /\ dk = k /\ dv = v
@@ -51,14 +60,14 @@ Put(c, p, v, ok, dks, dvs) ==
     /\ ok                                                       \* allocation cannot fail
     \* environment: with a value destructor installed, a fresh non-NULL value object per put; without one any pointer
     \* may be stored, including NULL (v = 0) and the very object that is already there
-    /\ dv => (v # 0 /\ v \notin vdead /\ \A i \in 1..Len(order) : order[i].v # v)
+    /\ dv => (v = 0 \/ (v \notin vdead /\ \A i \in 1..Len(order) : order[i].v # v))
     /\ LET i == IdxOf(c)
            new == [c |-> c, p |-> p, v |-> v]
        IN IF i = 0
           THEN /\ order' = Append(order, new)
-               /\ Destroys(dks, dvs, {}, {})
+               /\ Destroys5(dks, dvs, {}, {}, IF v = 0 THEN 1 ELSE 0)
           ELSE /\ order' = Append(WithoutIdx(order, i), new)   \* replaced and moved to the back
-               /\ Destroys(dks, dvs, IF order[i].p # p THEN {KeyOf(order[i])} ELSE {}, {order[i].v})
+               /\ Destroys5(dks, dvs, IF order[i].p # p THEN {KeyOf(order[i])} ELSE {}, {order[i].v}, IF v = 0 THEN 1 ELSE 0)
     /\ UNCHANGED <<dk, dv>>
 
 (* find: v = 0 stands for "*p_value == NULL" *)
